@@ -20,7 +20,7 @@ WDIR = os.path.join(extract.VERIF, "witness")
 
 def parse(name):
     p = os.path.join(WDIR, name + ".rs")
-    meta = {"expect": None, "config": "A", "twin": None, "path": p}
+    meta = {"expect": None, "config": "A", "twin": None, "path": p, "extern": ""}
     with open(p) as fh:
         for line in fh:
             m = re.match(r"//@ (\w+): (.*)", line.strip())
@@ -41,6 +41,12 @@ def compile_witness(ctx, name, meta):
     cmd = ["rustc", "+nightly", "--edition", "2021", "--crate-type", "lib", "--crate-name", "w_" + re.sub(r"\W", "_", name),
            "--emit=metadata", "-o", os.path.join(out, name + ".rmeta"), "-L", "dependency=" + deps,
            "--extern", "specs=" + rmeta, "--error-format=json", "-Awarnings", meta["path"]]
+    import glob
+    for ex in [x.strip() for x in meta.get("extern", "").split(",") if x.strip()]:
+        cands = sorted(glob.glob(os.path.join(deps, "lib%s-*.rmeta" % ex)) + glob.glob(os.path.join(deps, "lib%s-*.rlib" % ex)), key=os.path.getmtime)
+        if not cands:
+            raise extract.InfraError("witness %s needs crate %s which is not in %s" % (name, ex, deps))
+        cmd[-1:-1] = ["--extern", "%s=%s" % (ex, cands[-1])]
     r = subprocess.run(cmd, capture_output=True, text=True, env=env)
     diags = []
     for line in r.stderr.splitlines():
